@@ -81,7 +81,7 @@ func vhC09InvSpeedInexact(N int, gl gaussLegendreFunc, fp func(float64) float64,
 	lo, hi := math.Min(tmin, tmax), math.Max(tmin, tmax)
 	return func(l float64) float64 {
 		e := vNondetF64()
-		vAssume(-0.02 <= e && e <= 0.02)
+		vAssumeI(-0.02 <= e && e <= 0.02)
 		return math.Min(hi, math.Max(lo, tmin+(tmax-tmin)*l/dT+e))
 	}, dT
 }
